@@ -1,10 +1,11 @@
 """C01 — every operator acts exactly as the dense matrix it represents.
 
 theorems : coq/C01/Property.v over coq/C01/Model.v (transcription of _matmul / _t_matmul / _transpose_nonbatch /
-           _size / to_dense per class) and coq/C01/OpExpr.v (denote = the documented dense meaning)
+           _size / to_dense / public matmul, rmatmul, size accessors per class) and coq/C01/OpExpr.v (denote = the documented
+           dense meaning)
 tie      : correspondence, exact in Z: for every generated operator expression the REAL operator is built
            (harness/opbuild.build) and queried ( op @ X for four kinds of right-hand side, op.matmul, X @ op, v @ op,
-           op.mT @ X, op.to_dense(), op.mT.to_dense(), shape/size()/dim()/batch_shape/matrix_shape/numel() );
+           op.mT @ X, op._t_matmul, op.to_dense(), op.mT.to_dense(), shape/size()/dim()/batch_shape/matrix_shape/numel() );
            the float64 observations are written as literals into gen/cases_*.v where Coq evaluates the model
            on the same expression (vm_compute) and lists the queries whose result differs
 predicate: independently, every observation (float64, float32, and float32 under default dtype float64) is
@@ -12,6 +13,8 @@ predicate: independently, every observation (float64, float32, and float32 under
 triage   : model != implementation  and predicate fails  -> violation (or keyed known finding)
            model != implementation  and predicate holds  -> the model is wrong (reported no-failing-input)
            model == implementation  and predicate fails  -> violation (defect transcribed faithfully; known finding)
+mechanics: 3 worker processes build and query the cells (chunks of 40; the random stream of a chunk depends only on
+           (seed, chunk index)); 3 shard compilers; tensors are written as flat chunks of primitive integers (Check.untable)
 """
 import json
 import math
@@ -472,6 +475,12 @@ CATBATCH_CHILDREN = ["Dense", "Toeplitz", "Diag", "Sum", "Matmul", "Root", "Cons
 SQUARE_KIDS = {"Toeplitz", "Diag", "Root", "Triangular"}
 
 
+VARIANTS = [("interp-right-default", ["Dense", "Toeplitz", "Kron", "Sum"]), ("interp-left-default", ["Dense", "Toeplitz", "Kron", "Sum"]),
+            ("interp-both-default", ["Dense", "Toeplitz", "Kron", "Sum"]), ("interp-values-default", ["Dense", "Kernel"]),
+            ("addeddiag-diag-first", ["Dense", "Toeplitz", "Root", "Kernel", "Sum"]), ("triangular-over-operator", ["Dense", "Dense"]),
+            ("tensor-arguments", ["Dense", "Diag", "Toeplitz", "Kron"])]
+
+
 def cells(quick):
     """deterministic structural grid: (cls, child or None, batch kind, size kind, depth)"""
     out = []
@@ -519,6 +528,20 @@ def cells(quick):
             if quick and (gi + chi) % 2:
                 continue
             out.append(("CatBatch", ch, str(gi), ("sq2", "wide", "1x1", "tall")[(gi + chi) % 4], 2))
+    # constructor variants opbuild never produces: default (None) interpolation arguments, AddedDiag(diag, base), Triangular over
+    # an operator, raw tensors as Sum / Matmul arguments
+    vi = 0
+    for name, kids in VARIANTS:
+        for chi, ch in enumerate(kids):
+            for r in range(1 if quick else 3):
+                out.append(("Variant:" + name, ch, bk[(vi + chi + r) % len(bk)], sk[(vi + 2 * chi + r) % len(sk)], 2))
+        vi += 1
+    # children whose batch shapes differ (the constructors _expand_batch them): every child class under 6 parents
+    for pi, par in enumerate(BCAST_PARENTS):
+        for chi, ch in enumerate(CHILDREN):
+            if ch == "Zero" or (quick and (pi + chi) % 2):
+                continue
+            out.append(("Bcast:" + par, ch, str((pi + chi) % len(BCAST_PAIRS)), sk[(pi + chi) % len(sk)], 2))
     if not quick:
         for ci, cls in enumerate(ob.ALL):
             for b in bk:
@@ -536,6 +559,10 @@ def gen_expr(rng, cell):
         base = ob.gen(rng, child or "Dense", batch=list(base_batch), m=m, n=n, depth=max(1, depth - 1))
         e = {"cls": "BatchRepeat", "base": base, "rep": list(rep)}
         return sanitize(rng, e, cell)
+    if cls.startswith("Variant:"):
+        return sanitize(rng, gen_variant(rng, cls.split(":")[1], child, BKIND[b], m, n), (cls, child, b, s, depth))
+    if cls.startswith("Bcast:"):
+        return sanitize(rng, gen_bcast(rng, cls.split(":")[1], child, int(b), m, n), (cls, child, "()", s, depth))
     if cls == "CatBatch":
         frame, dim, sizes = CATBATCH[int(b)]
         nb = len(frame)
@@ -651,6 +678,130 @@ def numel_ok(e, limit=2500):
     return int(math.prod(shp)) <= limit and shp[-1] > 0 and shp[-2] > 0
 
 
+# ------------------------------------------------------------------------------------------ constructor variants
+
+def build(e, dtype):
+    """opbuild.build plus constructor variants opbuild never produces (field "variant", only at the TOP of an expression):
+    the expression itself is always the explicit form (it is what the Coq literal, the oracle and a replay use); the variant
+    only changes HOW the real operator is constructed."""
+    v = e.get("variant")
+    if not v:
+        return ob.build(e, dtype)
+    import linear_operator.operators as O
+    c = e["cls"]
+    if c == "Interpolated":          # default (None) interpolation arguments: identity interpolation on that side
+        base = ob.build(e["base"], dtype)
+        li, lv, ri, rv = ob.tt(e["li"]), ob.tt(e["lv"], dtype), ob.tt(e["ri"]), ob.tt(e["rv"], dtype)
+        if v == "right-default":
+            return O.InterpolatedLinearOperator(base, li, lv)
+        if v == "left-default":
+            return O.InterpolatedLinearOperator(base, right_interp_indices=ri, right_interp_values=rv)
+        if v == "both-default":
+            return O.InterpolatedLinearOperator(base)
+        if v == "values-default":
+            return O.InterpolatedLinearOperator(base, left_interp_indices=li, right_interp_indices=ri)
+    if c == "AddedDiag" and v == "diag-first":
+        return O.AddedDiagLinearOperator(ob.build(e["diag"], dtype), ob.build(e["base"], dtype))
+    if c == "Triangular" and v == "over-operator":
+        return O.TriangularLinearOperator(O.DenseLinearOperator(ob.tt(e["t"], dtype)), upper=e["upper"])
+    if c in ("Sum", "Matmul") and v == "tensor-arguments":     # raw tensors are wrapped by to_linear_operator
+        raw = lambda x: ob.tt(x["t"], dtype) if x["cls"] == "Dense" else ob.build(x, dtype)
+        if c == "Sum":
+            return O.SumLinearOperator(*[raw(x) for x in e["ops"]])
+        return O.MatmulLinearOperator(raw(e["l"]), raw(e["r"]))
+    raise ValueError("unknown variant %s of %s" % (v, c))
+
+
+def identity_interp(batch, n):
+    idx = {"shape": list(batch) + [n, 1], "data": list(range(n)) * int(math.prod(batch)), "long": True}
+    val = {"shape": list(batch) + [n, 1], "data": [1] * (n * int(math.prod(batch)))}
+    return idx, val
+
+
+def gen_variant(rng, name, child, batch, m, n):
+    if name.startswith("interp-"):
+        cc = child if child not in ob.SQUARE_ONLY or m == n else "Dense"
+        base = ob.gen(rng, cc, batch=list(batch), m=m, n=n, depth=1, child="Dense")
+        bm, bn = ob.shape_of(base)[-2:]
+        k = rng.choice([1, 2])
+        rows, cols = rng.choice([2, 3]), rng.choice([1, 3])
+        li = {"shape": list(batch) + [rows, k], "data": [rng.randrange(bm) for _ in range(int(math.prod(list(batch) + [rows, k])))], "long": True}
+        lv = ob.rand_t(rng, list(batch) + [rows, k], -2, 2)
+        ri = {"shape": list(batch) + [cols, k], "data": [rng.randrange(bn) for _ in range(int(math.prod(list(batch) + [cols, k])))], "long": True}
+        rv = ob.rand_t(rng, list(batch) + [cols, k], -2, 2)
+        v = name[len("interp-"):]
+        if v in ("left-default", "both-default"):
+            li, lv = identity_interp(batch, bm)
+        if v in ("right-default", "both-default"):
+            ri, rv = identity_interp(batch, bn)
+        if v == "values-default":
+            lv = {"shape": list(li["shape"]), "data": [1] * len(li["data"])}
+            rv = {"shape": list(ri["shape"]), "data": [1] * len(ri["data"])}
+        return {"cls": "Interpolated", "base": base, "li": li, "lv": lv, "ri": ri, "rv": rv, "variant": v}
+    if name == "addeddiag-diag-first":
+        cc = child if child not in ("Diag", "ConstantDiag", "Identity", "KronDiag", "Zero") else "Dense"
+        base = ob.gen(rng, cc, batch=list(batch), m=m, n=m, depth=1, child="Dense")
+        N = ob.shape_of(base)[-1]
+        if ob.shape_of(base)[-2] != N:
+            base = ob.gen(rng, "Dense", batch=list(batch), m=m, n=m)
+            N = m
+        diag = ob.gen(rng, rng.choice(["Diag", "ConstantDiag"]), batch=list(batch), m=N, psd=True)
+        return {"cls": "AddedDiag", "base": base, "diag": diag, "variant": "diag-first"}
+    if name == "triangular-over-operator":
+        e = ob.gen(rng, "Triangular", batch=list(batch), m=m)
+        e["variant"] = "over-operator"
+        return e
+    if name == "tensor-arguments":
+        other = ob.gen(rng, child, batch=list(batch), m=m, n=n, depth=1, child="Dense")
+        om, on = ob.shape_of(other)[-2:]
+        if rng.getrandbits(1):
+            return {"cls": "Sum", "ops": [ob.gen(rng, "Dense", batch=list(batch), m=om, n=on), other], "variant": "tensor-arguments"}
+        return {"cls": "Matmul", "l": ob.gen(rng, "Dense", batch=list(batch), m=rng.choice([1, 2]), n=om), "r": other,
+                "variant": "tensor-arguments"}
+    raise ValueError(name)
+
+
+# children of DIFFERENT but broadcastable batch shapes: the constructors call _expand_batch on them (opbuild gives all children
+# the same batch shape, so no other cell reaches any class's _expand_batch)
+BCAST_PAIRS = [([], [2]), ([1], [3]), ([2, 1], [1, 3]), ([3], [2, 3]), ([1, 3], [2, 1]), ([2], [])]
+BCAST_PARENTS = ["Sum", "MatmulL", "MatmulR", "Kron", "AddedDiag", "Interpolated"]
+
+
+def gen_bcast(rng, parent, child, pi, m, n):
+    small, big = BCAST_PAIRS[pi % len(BCAST_PAIRS)]
+    sq = parent in ("AddedDiag",) or child in ob.SQUARE_ONLY
+    if parent == "AddedDiag" and child in ("Diag", "ConstantDiag", "Identity", "KronDiag", "Zero"):
+        child = "Dense"
+    first = ob.gen(rng, child, batch=list(small), m=m, n=(m if sq else n), depth=1, child="Dense")
+    fm, fn = ob.shape_of(first)[-2:]
+    if parent == "Sum":
+        return {"cls": "Sum", "ops": [first, ob.gen(rng, "Dense", batch=list(big), m=fm, n=fn)]}
+    if parent == "MatmulL":
+        return {"cls": "Matmul", "l": first, "r": ob.gen(rng, "Dense", batch=list(big), m=fn, n=rng.choice([1, 2]))}
+    if parent == "MatmulR":
+        return {"cls": "Matmul", "l": ob.gen(rng, "Dense", batch=list(big), m=rng.choice([1, 3]), n=fm), "r": first}
+    if parent == "Kron":
+        return {"cls": "Kron", "ops": [first, ob.gen(rng, "Dense", batch=list(big), m=2, n=rng.choice([1, 2]))]}
+    if parent == "AddedDiag":
+        if fm != fn:
+            first = ob.gen(rng, "Dense", batch=list(small), m=m, n=m)
+            fm = fn = m
+        return {"cls": "AddedDiag", "base": first, "diag": ob.gen(rng, rng.choice(["Diag", "ConstantDiag"]), batch=list(big), m=fm, psd=True)}
+    if parent == "Interpolated":
+        try:
+            ok = list(torch.broadcast_shapes(tuple(small), tuple(big))) == list(big)
+        except RuntimeError:
+            ok = False
+        ib = list(big) if ok else list(small)
+        k = rng.choice([1, 2])
+        rows, cols = rng.choice([2, 3]), rng.choice([1, 2])
+        li = {"shape": ib + [rows, k], "data": [rng.randrange(fm) for _ in range(int(math.prod(ib + [rows, k])))], "long": True}
+        ri = {"shape": ib + [cols, k], "data": [rng.randrange(fn) for _ in range(int(math.prod(ib + [cols, k])))], "long": True}
+        return {"cls": "Interpolated", "base": first, "li": li, "lv": ob.rand_t(rng, ib + [rows, k], -2, 2),
+                "ri": ri, "rv": ob.rand_t(rng, ib + [cols, k], -2, 2)}
+    raise ValueError(parent)
+
+
 # ------------------------------------------------------------------------------------------ keys / shrinking
 
 EXC_CLASSES = [
@@ -682,6 +833,8 @@ def fail_key(e, kind, fk, text, dtype_tag):
            "has_perm": bool(cl & {"Permutation", "TransposePermutation"}),
            "children": ",".join(sorted({k["cls"] for k in kids_of(e)})),
            "square": ob.shape_of(e)[-1] == ob.shape_of(e)[-2],
+           "chol_upper_kid": any(k["cls"] == "Chol" and bool(k.get("upper")) for k in kids_of(e)),
+           "kid_batch_differs": any(ob.shape_of(k)[:-2] != ob.shape_of(e)[:-2] for k in kids_of(e)),
            "dtype": dtype_tag}
     if kind.startswith("matmul_"):
         key["rhs"] = kind[len("matmul_"):]
@@ -701,7 +854,7 @@ def check_one(e, kind, rhs, dtype_tag="float64"):
     try:
         if dtype_tag == "float32-default64":
             torch.set_default_dtype(torch.float64)
-        op = ob.build(e, dtype)
+        op = build(e, dtype)
         D = ob.dense(e, dtype)
         obs = run_query(op, kind, rhs, dtype)
         return predicate(e, kind, rhs, dtype, obs, D), obs
@@ -762,8 +915,8 @@ def _observe_chunk(args):
             skipped["inexpressible"] += 1    # no Coq literal: the case is still judged by the direct predicate
             lit = None
         try:
-            op64 = ob.build(e, torch.float64)
-            op32 = ob.build(e, torch.float32)
+            op64 = build(e, torch.float64)
+            op32 = build(e, torch.float32)
             D64 = ob.dense(e, torch.float64)
             D32 = ob.dense(e, torch.float32)
         except Exception:
@@ -788,7 +941,7 @@ def _observe_chunk(args):
         for cs in cases:
             e = cs["e"]
             try:
-                op32 = ob.build(e, torch.float32)
+                op32 = build(e, torch.float32)
                 D32 = ob.dense(e, torch.float32)
             except Exception:
                 continue
